@@ -94,7 +94,9 @@ def cases(tier, seed):
             out.append(dict(kind='expr-concrete', cfg=cfg, expr=e, sub='captured-symbolic'))
         # the NAME of the symbolic last argument is not part of the contract (single capital letters are what the
         # implementation uses for its own stand-ins of array-valued inputs)
-        for e, xname in (('sw', 'A'), ('gp', 'A'), ('cp', 'B'), ('half', 'A'), ('sw', 'R')):
+        # (x WITHOUT a scalar part whose keys overlap those of an array-valued input: the stand-in 'A' owns symbols A1, A2, ...
+        # while x named 'A' has no symbol 'A' itself -- seed C18m)
+        for e, xname in (('sw', 'A'), ('gp', 'A'), ('cp', 'B'), ('half', 'A'), ('sw', 'R'), ('op', 'A'), ('proj', 'A'), ('two', 'A'), ('two', 'B')):
             for mode in ('array', 'numeric', 'symbolic'):
                 out.append(dict(kind='expr', cfg=cfg, expr=e, mode=mode, res_like=False, xname=xname))
     return out
